@@ -17,8 +17,8 @@ package age
 //@   requires forall j in 0..len(stanzas) :: stanzas[j] != nil
 //@   loop 1 invariant -1 <= rangeindex && rangeindex < len(stanzas) && (forall j in 0..rangeindex+1 :: wraps(apply(unwrap, 1, stanzas[j]), ErrIncorrectIdentity))
 //@   loop 1 decreases len(stanzas) - rangeindex
-//@   ensures#nomatch (forall j in 0..len(stanzas) :: wraps(apply(unwrap, 1, stanzas[j]), ErrIncorrectIdentity)) ==> result0 == nil && result1 == ErrIncorrectIdentity   [C01 C04]
-//@   ensures#first forall k in 0..len(stanzas) :: (!wraps(apply(unwrap, 1, stanzas[k]), ErrIncorrectIdentity) && (forall j in 0..k :: wraps(apply(unwrap, 1, stanzas[j]), ErrIncorrectIdentity))) ==> ((apply(unwrap, 1, stanzas[k]) != nil ==> result0 == nil && result1 == apply(unwrap, 1, stanzas[k])) && (apply(unwrap, 1, stanzas[k]) == nil ==> same(result0, apply(unwrap, 0, stanzas[k])) && result1 == nil))   [C01 C04]
+//@   ensures#nomatch (forall j in 0..len(stanzas) :: wraps(apply(unwrap, 1, stanzas[j]), ErrIncorrectIdentity)) ==> result0 == nil && result1 == ErrIncorrectIdentity   [C01 C04 C05]
+//@   ensures#first forall k in 0..len(stanzas) :: (!wraps(apply(unwrap, 1, stanzas[k]), ErrIncorrectIdentity) && (forall j in 0..k :: wraps(apply(unwrap, 1, stanzas[j]), ErrIncorrectIdentity))) ==> ((apply(unwrap, 1, stanzas[k]) != nil ==> result0 == nil && result1 == apply(unwrap, 1, stanzas[k])) && (apply(unwrap, 1, stanzas[k]) == nil ==> same(result0, apply(unwrap, 0, stanzas[k])) && result1 == nil))   [C01 C04 C05]
 //@   ensures#nil result1 != nil ==> result0 == nil   [C01 C04]
 //@   modifies nothing
 
@@ -26,7 +26,7 @@ package age
 
 //@ func streamKey(fileKey, nonce) (key)
 //@   maypanic
-//@   call hkdf.New#1 requires isfunc(arg0, "crypto/sha256.New") && bytes(arg1) == bytes(fileKey) && bytes(arg2) == bytes(nonce) && bytes(arg3) == "payload"   [C02 C05]
+//@   call hkdf.New#1 requires isfunc(arg0, "crypto/sha256.New") && bytes(arg1) == bytes(fileKey) && bytes(arg2) == bytes(nonce) && bytes(arg3) == "payload"   [C01 C02 C05]
 //@   ensures#len len(key) == 32
 //@   ensures#val bytes(key) == sub(hkdfstream(old(bytes(fileKey)), old(bytes(nonce)), "payload"), 0, 32)       [C01 C02 C05]
 //@   fresh key
@@ -34,9 +34,9 @@ package age
 
 //@ func headerMAC(fileKey, hdr) (mac, err)
 //@   requires hdr != nil && (forall j in 0..len(hdr.Recipients) :: hdr.Recipients[j] != nil)
-//@   call hkdf.New#1 requires isfunc(arg0, "crypto/sha256.New") && bytes(arg1) == bytes(fileKey) && len(arg2) == 0 && bytes(arg3) == "header"   [C03 C05]
-//@   call hmac.New#1 requires isfunc(arg0, "crypto/sha256.New")                                                                         [C03 C05]
-//@   ensures#val err == nil ==> len(mac) == 32 && bytes(mac) == hmac256(sub(hkdfstream(old(bytes(fileKey)), "", "header"), 0, 32), hdrbytes(hdr))   [C03 C05]
+//@   call hkdf.New#1 requires isfunc(arg0, "crypto/sha256.New") && bytes(arg1) == bytes(fileKey) && len(arg2) == 0 && bytes(arg3) == "header"   [C01 C03 C05]
+//@   call hmac.New#1 requires isfunc(arg0, "crypto/sha256.New")                                                                         [C01 C03 C05]
+//@   ensures#val err == nil ==> len(mac) == 32 && bytes(mac) == hmac256(sub(hkdfstream(old(bytes(fileKey)), "", "header"), 0, 32), hdrbytes(hdr))   [C01 C03 C05]
 //@   ensures#nil err != nil ==> mac == nil
 //@   fresh mac when err == nil
 //@   modifies nothing
@@ -49,25 +49,25 @@ package age
 //@   loop 1 decreases len(hdr.Recipients) - rangeindex
 //@   loop 2 invariant -1 <= rangeindex && rangeindex < len(identities)
 //@   loop 2 invariant#fresherrs fresh(errNoMatch) && (rg(errNoMatch.Errors) == 0 || fresh(errNoMatch.Errors))
-//@   loop 2 invariant#count $uwn == old($uwn) + rangeindex + 1                                                                        [C01 C04]
-//@   loop 2 invariant#nokey fileKey == nil                                                                                              [C01]
+//@   loop 2 invariant#count $uwn == old($uwn) + rangeindex + 1                                                                        [C01 C04 C05]
+//@   loop 2 invariant#nokey fileKey == nil                                                                                              [C01 C04 C05]
 //@   loop 2 invariant#frame unchanged(identities) && disjoint(errNoMatch.Errors, identities)                                           [C01 C04 C14]
-//@   loop 2 invariant#logid forall j in 0..rangeindex+1 :: $uwid[old($uwn)+j] == identities[j]                                          [C01]
-//@   loop 2 invariant#logerr forall j in 0..rangeindex+1 :: wraps($uwerr[old($uwn)+j], EII)                                            [C01]
+//@   loop 2 invariant#logid forall j in 0..rangeindex+1 :: $uwid[old($uwn)+j] == identities[j]                                          [C01 C04 C05]
+//@   loop 2 invariant#logerr forall j in 0..rangeindex+1 :: wraps($uwerr[old($uwn)+j], EII)                                            [C01 C04 C05]
 //@   loop 2 invariant#alleii (forall j in 0..rangeindex+1 :: wraps($uwerr[old($uwn)+j], EII)) ==> (fileKey == nil && len(errNoMatch.Errors) == rangeindex+1 && (forall j in 0..rangeindex+1 :: errNoMatch.Errors[j] == $uwerr[old($uwn)+j]))   [C04]
 //@   loop 2 decreases len(identities) - rangeindex
 //@   call Unwrap#0 requires len(arg1) == len(hdr.Recipients) && (forall j in 0..len(arg1) :: arg1[j] == hdr.Recipients[j])             [C01 C04 C10]
 //@   ensures#nilxor (rd == nil) <==> (err != nil)                                                              [C03 C04 C07 C14]
-//@   ensures#order $uwn - old($uwn) <= len(identities) && (forall j in 0..$uwn-old($uwn) :: $uwid[old($uwn)+j] == identities[j])   [C01]
-//@   ensures#stopfirst forall j in 0..$uwn-old($uwn)-1 :: wraps($uwerr[old($uwn)+j], EII)                      [C01]
-//@   ensures#nomatch (len(identities) > 0 && $uwn - old($uwn) == len(identities) && (forall j in 0..len(identities) :: wraps($uwerr[old($uwn)+j], EII))) ==> rd == nil && typeis(err, "*filippo.io/age.NoIdentityMatchError") && len(cast(err, "filippo.io/age.NoIdentityMatchError").Errors) == len(identities) && (forall j in 0..len(identities) :: cast(err, "filippo.io/age.NoIdentityMatchError").Errors[j] == $uwerr[old($uwn)+j])   [C04]
-//@   ensures#keyok err == nil ==> $uwn > old($uwn) && $uwerr[$uwn-1] == nil && !isnil($uwkey[$uwn-1]) && same($uwkey[$uwn-1], fileKey)   [C01]
-//@   ensures#mac err == nil ==> $eqcalls == old($eqcalls)+1 && $eqr && $eqb == bytes(hdr.MAC) && $eqa == hmac256(sub(hkdfstream(bytes(fileKey), "", "header"), 0, 32), hdrbytes(hdr))   [C03 C05]
-//@   ensures#reader err == nil ==> typeis(rd, "*filippo.io/age/internal/stream.Reader") && cast(rd, "filippo.io/age/internal/stream.Reader").src == payload && cast(rd, "filippo.io/age/internal/stream.Reader").a.$key == sub(hkdfstream(bytes(fileKey), bytes(nonce), "payload"), 0, 32)   [C01 C02 C05]
+//@   ensures#order $uwn - old($uwn) <= len(identities) && (forall j in 0..$uwn-old($uwn) :: $uwid[old($uwn)+j] == identities[j])   [C01 C04 C05]
+//@   ensures#stopfirst forall j in 0..$uwn-old($uwn)-1 :: wraps($uwerr[old($uwn)+j], EII)                      [C01 C04 C05]
+//@   ensures#nomatch (len(identities) > 0 && $uwn - old($uwn) == len(identities) && (forall j in 0..len(identities) :: wraps($uwerr[old($uwn)+j], EII))) ==> rd == nil && typeis(err, "*filippo.io/age.NoIdentityMatchError") && len(cast(err, "filippo.io/age.NoIdentityMatchError").Errors) == len(identities) && (forall j in 0..len(identities) :: cast(err, "filippo.io/age.NoIdentityMatchError").Errors[j] == $uwerr[old($uwn)+j])   [C01 C04]
+//@   ensures#keyok err == nil ==> $uwn > old($uwn) && $uwerr[$uwn-1] == nil && !isnil($uwkey[$uwn-1]) && same($uwkey[$uwn-1], fileKey)   [C01 C04 C05]
+//@   ensures#mac err == nil ==> $eqcalls == old($eqcalls)+1 && $eqr && $eqb == bytes(hdr.MAC) && $eqa == hmac256(sub(hkdfstream(bytes(fileKey), "", "header"), 0, 32), hdrbytes(hdr))   [C01 C03 C05]
+//@   ensures#reader err == nil ==> typeis(rd, "*filippo.io/age/internal/stream.Reader") && cast(rd, "filippo.io/age/internal/stream.Reader").src == payload && cast(rd, "filippo.io/age/internal/stream.Reader").a.$key == sub(hkdfstream(bytes(fileKey), bytes(nonce), "payload"), 0, 32)   [C01 C02 C05 C12]
 //@   call io.ReadFull#1 requires arg0 == payload && same(arg1, nonce) && len(nonce) == 16       [C02 C05]
 //@   call io.ReadFull#1 requires !isnil(fileKey) && $eqcalls == old($eqcalls) + 1 && $eqr       [C03 C04]
-//@   call hmac.Equal#1 requires same(arg0, mac) && same(arg1, hdr.MAC)                          [C03]
-//@   call streamKey#1 requires same(arg0, fileKey) && same(arg1, nonce)                         [C02 C05]
+//@   call hmac.Equal#1 requires same(arg0, mac) && same(arg1, hdr.MAC)                          [C01 C03 C05]
+//@   call streamKey#1 requires same(arg0, fileKey) && same(arg1, nonce)                         [C01 C02 C05]
 //@   ensures#wrapparse lasterr("Parse",1) != nil ==> err != nil && wraps(err, lasterr("Parse",1))            [C13 C14]
 //@   ensures#wrapnonce lasterr("io.ReadFull",1) != nil ==> err != nil && wraps(err, lasterr("io.ReadFull",1)) [C13 C14]
 //@   ensures#argsintact unchanged(identities)                                                    [C20]
@@ -86,7 +86,7 @@ package age
 //@   call chacha20poly1305.New#1 requires same(arg0, key)                                                         [C05]
 //@   call Seal#1 requires arg1 == nil && bytes(arg2) == zeros(12) && len(arg2) == 12 && same(arg3, plaintext) && arg4 == nil   [C05 C06]
 //@   ensures#err err == nil <==> len(key) == 32
-//@   ensures#val err == nil ==> bytes(ct) == seal(old(bytes(key)), zeros(12), old(bytes(plaintext))) && len(ct) == len(plaintext) + 16   [C01 C05]
+//@   ensures#val err == nil ==> bytes(ct) == seal(old(bytes(key)), zeros(12), old(bytes(plaintext))) && len(ct) == len(plaintext) + 16   [C01 C05 C06]
 //@   ensures#nil err != nil ==> ct == nil
 //@   fresh ct when err == nil
 //@   modifies nothing
@@ -95,9 +95,9 @@ package age
 //@   requires 0 <= size && size <= 65536
 //@   call chacha20poly1305.New#1 requires same(arg0, key)                                                         [C05]
 //@   call Open#1 requires arg1 == nil && bytes(arg2) == zeros(12) && len(arg2) == 12 && same(arg3, ciphertext) && arg4 == nil   [C05]
-//@   ensures#size len(key) == 32 && len(ciphertext) != size + 16 ==> err == errIncorrectCiphertextSize && pt == nil           [C04 C05 C14]
-//@   ensures#ok len(key) == 32 && len(ciphertext) == size + 16 ==> (err == nil <==> openok(old(bytes(key)), zeros(12), old(bytes(ciphertext))))   [C01 C04]
-//@   ensures#val err == nil ==> bytes(pt) == open(old(bytes(key)), zeros(12), old(bytes(ciphertext))) && len(pt) == size && len(ciphertext) == size + 16   [C01 C04]
+//@   ensures#size len(key) == 32 && len(ciphertext) != size + 16 ==> err == errIncorrectCiphertextSize && pt == nil           [C01 C04 C05 C14]
+//@   ensures#ok len(key) == 32 && len(ciphertext) == size + 16 ==> (err == nil <==> openok(old(bytes(key)), zeros(12), old(bytes(ciphertext))))   [C01 C04 C05]
+//@   ensures#val err == nil ==> bytes(pt) == open(old(bytes(key)), zeros(12), old(bytes(ciphertext))) && len(pt) == size && len(ciphertext) == size + 16   [C01 C04 C05]
 //@   ensures#nil err != nil ==> pt == nil
 //@   ensures#notsize len(key) == 32 && len(ciphertext) == size + 16 ==> err != errIncorrectCiphertextSize
 //@   fresh pt when err == nil && len(pt) > 0
@@ -133,8 +133,8 @@ package age
 //@   call aeadDecrypt#1 requires arg1 == 16 && same(arg2, block.Body)                                                              [C05]
 //@   ensures#foreign block.Type != "X25519" ==> err == ErrIncorrectIdentity                                                        [C01 C04 C05]
 //@   ensures#nil err != nil ==> fk == nil                                                                                          [C01 C04]
-//@   ensures#wrongkey (block.Type == "X25519" && len(block.Args) == 1 && b64rawok(block.Args[0]) && len(unb64raw(block.Args[0])) == 32 && x25519ok(bytes(i.secretKey), unb64raw(block.Args[0])) && len(block.Body) == 32 && !openok(x25519Key(x25519(bytes(i.secretKey), unb64raw(block.Args[0])), unb64raw(block.Args[0]), bytes(i.ourPublicKey)), zeros(12), bytes(block.Body))) ==> err == ErrIncorrectIdentity   [C04]
-//@   ensures#ok err == nil ==> block.Type == "X25519" && len(fk) == 16 && bytes(fk) == open(x25519Key(x25519(bytes(i.secretKey), unb64raw(block.Args[0])), unb64raw(block.Args[0]), bytes(i.ourPublicKey)), zeros(12), bytes(block.Body))   [C01 C04]
+//@   ensures#wrongkey (block.Type == "X25519" && len(block.Args) == 1 && b64rawok(block.Args[0]) && len(unb64raw(block.Args[0])) == 32 && x25519ok(bytes(i.secretKey), unb64raw(block.Args[0])) && len(block.Body) == 32 && !openok(x25519Key(x25519(bytes(i.secretKey), unb64raw(block.Args[0])), unb64raw(block.Args[0]), bytes(i.ourPublicKey)), zeros(12), bytes(block.Body))) ==> err == ErrIncorrectIdentity   [C01 C04]
+//@   ensures#ok err == nil ==> block.Type == "X25519" && len(fk) == 16 && bytes(fk) == open(x25519Key(x25519(bytes(i.secretKey), unb64raw(block.Args[0])), unb64raw(block.Args[0]), bytes(i.ourPublicKey)), zeros(12), bytes(block.Body))   [C01 C04 C05]
 //@   ensures#frame i.secretKey == old(i.secretKey) && i.ourPublicKey == old(i.ourPublicKey)                                        [C20]
 //@   ensures#opens (block.Type == "X25519" && len(block.Args) == 1 && b64rawok(block.Args[0]) && len(unb64raw(block.Args[0])) == 32 && x25519ok(bytes(i.secretKey), unb64raw(block.Args[0])) && len(block.Body) == 32 && openok(x25519Key(x25519(bytes(i.secretKey), unb64raw(block.Args[0])), unb64raw(block.Args[0]), bytes(i.ourPublicKey)), zeros(12), bytes(block.Body))) ==> err == nil   [C01 C05]
 //@   modifies nothing
@@ -186,9 +186,9 @@ package age
 //@   ensures#bound (block.Type == "scrypt" && len(block.Args) == 2 && (!canondec(block.Args[1]) || atoi(block.Args[1]) > i.maxWorkFactor)) ==> err != nil && $scryptcalls == old($scryptcalls)   [C10 C14]
 //@   ensures#calls $scryptcalls <= old($scryptcalls) + 1                                                                            [C10 C14]
 //@   ensures#frame i.password == old(i.password) && i.maxWorkFactor == old(i.maxWorkFactor)                                         [C20]
-//@   ensures#wrongkey (err != nil && $scryptcalls == old($scryptcalls) + 1 && len(block.Body) == 32) ==> err == ErrIncorrectIdentity   [C04]
+//@   ensures#wrongkey (err != nil && $scryptcalls == old($scryptcalls) + 1 && len(block.Body) == 32) ==> err == ErrIncorrectIdentity   [C04 C10]
 //@   ensures#nomatch (block.Type == "scrypt" && len(block.Args) == 2 && b64rawok(block.Args[0]) && len(unb64raw(block.Args[0])) == 16 && canondec(block.Args[1]) && atoi(block.Args[1]) <= i.maxWorkFactor && len(block.Body) == 32 && !openok(scryptKeyOf(bytes(i.password), unb64raw(block.Args[0]), atoi(block.Args[1])), zeros(12), bytes(block.Body))) ==> err == ErrIncorrectIdentity   [C04 C10]
-//@   ensures#ok err == nil ==> block.Type == "scrypt" && len(fk) == 16 && bytes(fk) == open(scryptKeyOf(bytes(i.password), unb64raw(block.Args[0]), atoi(block.Args[1])), zeros(12), bytes(block.Body))   [C01 C04]
+//@   ensures#ok err == nil ==> block.Type == "scrypt" && len(fk) == 16 && bytes(fk) == open(scryptKeyOf(bytes(i.password), unb64raw(block.Args[0]), atoi(block.Args[1])), zeros(12), bytes(block.Body))   [C01 C04 C05 C10]
 //@   ensures#opens (block.Type == "scrypt" && len(block.Args) == 2 && b64rawok(block.Args[0]) && len(unb64raw(block.Args[0])) == 16 && canondec(block.Args[1]) && atoi(block.Args[1]) <= i.maxWorkFactor && len(block.Body) == 32 && openok(scryptKeyOf(bytes(i.password), unb64raw(block.Args[0]), atoi(block.Args[1])), zeros(12), bytes(block.Body))) ==> err == nil   [C01 C05 C10]
 //@   modifies $scryptcalls
 
@@ -197,7 +197,7 @@ package age
 //@   loop 1 invariant -1 <= rangeindex && rangeindex < len(stanzas)
 //@   loop 1 invariant#noscrypt len(stanzas) != 1 ==> (forall j in 0..rangeindex+1 :: stanzas[j].Type != "scrypt")   [C10 C14]
 //@   loop 1 decreases len(stanzas) - rangeindex
-//@   ensures#alone (len(stanzas) != 1 && (exists j in 0..len(stanzas) :: stanzas[j].Type == "scrypt")) ==> fk == nil && err != nil && !wraps(err, ErrIncorrectIdentity) && $scryptcalls == old($scryptcalls)   [C10 C14]
+//@   ensures#alone (len(stanzas) != 1 && (exists j in 0..len(stanzas) :: stanzas[j].Type == "scrypt")) ==> fk == nil && err != nil && !wraps(err, ErrIncorrectIdentity) && $scryptcalls == old($scryptcalls)   [C04 C10 C14]
 //@   ensures#nil err != nil ==> fk == nil                                                                                           [C01 C04]
 //@   ensures#foreign (forall j in 0..len(stanzas) :: stanzas[j].Type != "scrypt") ==> err == ErrIncorrectIdentity   [C01 C04 C05]
 
@@ -223,31 +223,31 @@ package age
 //@   loop 2 invariant#sorted $sortn == old($sortn) + i + 1                                                                          [C11]
 //@   loop 2 decreases len(stanzas) - rangeindex
 //@   call rand.Read#1 requires same(arg0, fileKey) && len(arg0) == 16                                                                [C05 C06]
-//@   call wrapWithLabels#0 requires same(arg1, fileKey) && bytes(arg1) == csprng(old($draws), 16)                                    [C01 C06]
+//@   call wrapWithLabels#0 requires same(arg1, fileKey) && bytes(arg1) == csprng(old($draws), 16)                                    [C01 C05 C06 C11]
 //@   call sort.Strings#0 requires same(arg0, l)                                                                                      [C11]
 //@   call slicesEqual#0 requires same(arg0, labels) && same(arg1, l) && i > 0                                                        [C11]
-//@   call headerMAC#1 requires same(arg0, fileKey) && bytes(arg0) == csprng(old($draws), 16) && arg1 == hdr                          [C01 C03 C06]
+//@   call headerMAC#1 requires same(arg0, fileKey) && bytes(arg0) == csprng(old($draws), 16) && arg1 == hdr                          [C01 C03 C05 C06]
 //@   call Marshal#1 requires arg0 == hdr && arg1 == dst && same(hdr.MAC, mac)                                                        [C03 C05 C13]
 //@   call rand.Read#2 requires same(arg0, nonce) && len(arg0) == 16                                                                  [C05 C06]
 //@   call Writer).Write#1 requires arg0 == dst && same(arg1, nonce) && bytes(arg1) == csprng($draws - 1, 16) && $draws - 1 > old($draws)   [C05 C06]
 //@   call streamKey#1 requires same(arg0, fileKey) && same(arg1, nonce) && bytes(arg0) == csprng(old($draws), 16) && bytes(arg1) == csprng($draws - 1, 16) && $draws - 1 > old($draws)   [C01 C05 C06]
-//@   call NewWriter#1 requires arg1 == dst                                                                                           [C01 C13]
+//@   call NewWriter#1 requires arg1 == dst                                                                                           [C01 C05 C12 C13]
 //@   ensures#nilxor (wc == nil) <==> (err != nil)                                                                                    [C11 C13 C14]
 //@   ensures#norecipients len(recipients) == 0 ==> err != nil && dst.$out == old(dst.$out)                                           [C11]
 //@   ensures#refuse (err != nil && $hmarshal == old($hmarshal)) ==> dst.$out == old(dst.$out)                                         [C11 C13]
 //@   ensures#sorted err == nil ==> $sortn == old($sortn) + len(recipients)                                                            [C11]
-//@   ensures#out err == nil ==> dst.$out == cat(old(dst.$out), hdrbytes(hdr), " ", b64raw(bytes(hdr.MAC)), "\n", bytes(nonce)) && len(nonce) == 16   [C01 C03 C05 C13]
+//@   ensures#out err == nil ==> dst.$out == cat(old(dst.$out), hdrbytes(hdr), " ", b64raw(bytes(hdr.MAC)), "\n", bytes(nonce)) && len(nonce) == 16   [C01 C03 C05 C11 C13]
 //@   ensures#mac err == nil ==> bytes(hdr.MAC) == hmac256(sub(hkdfstream(bytes(fileKey), "", "header"), 0, 32), hdrbytes(hdr))       [C01 C03 C05]
 //@   ensures#failmarshal lasterr("Marshal",1) != nil ==> err != nil && wc == nil                                                    [C13]
 //@   ensures#failnonce lasterr("Writer).Write",1) != nil ==> err != nil && wc == nil                                                 [C13]
 //@   ensures#failwrap lasterr("wrapWithLabels",1) != nil ==> err != nil && wc == nil                                                 [C11 C13]
 //@   ensures#argsintact unchanged(recipients)                                                                                        [C20]
 //@   modifies dst.$out, dst.$wn, $draws, $sortn, $hmarshal, $scryptcalls
-//@   ensures#writer err == nil ==> typeis(wc, "*filippo.io/age/internal/stream.Writer") && cast(wc, "filippo.io/age/internal/stream.Writer").dst == dst && cast(wc, "filippo.io/age/internal/stream.Writer").a.$key == sub(hkdfstream(bytes(fileKey), bytes(nonce), "payload"), 0, 32) && len(cast(wc, "filippo.io/age/internal/stream.Writer").unwritten) == 0 && cast(wc, "filippo.io/age/internal/stream.Writer").err == nil   [C01 C05 C06 C13]
+//@   ensures#writer err == nil ==> typeis(wc, "*filippo.io/age/internal/stream.Writer") && cast(wc, "filippo.io/age/internal/stream.Writer").dst == dst && cast(wc, "filippo.io/age/internal/stream.Writer").a.$key == sub(hkdfstream(bytes(fileKey), bytes(nonce), "payload"), 0, 32) && len(cast(wc, "filippo.io/age/internal/stream.Writer").unwritten) == 0 && cast(wc, "filippo.io/age/internal/stream.Writer").err == nil   [C01 C05 C06 C12 C13]
 //@   ensures#fresh err == nil ==> bytes(fileKey) == csprng(old($draws), 16) && bytes(nonce) == csprng($draws - 1, 16) && $draws - 1 > old($draws)   [C06]
 
 //@ func newX25519RecipientFromPoint(publicKey) (r, err)
-//@   ensures#len err == nil <==> len(publicKey) == 32                                                                   [C09 C14]
+//@   ensures#len err == nil <==> len(publicKey) == 32                                                                   [C01 C05 C09 C14]
 //@   ensures#val err == nil ==> r != nil && len(r.theirPublicKey) == 32 && bytes(r.theirPublicKey) == old(bytes(publicKey))   [C09 C01 C04]
 //@   ensures#nil err != nil ==> r == nil
 //@   fresh r when err == nil
@@ -255,9 +255,9 @@ package age
 
 //@ func ParseX25519Recipient(s) (r, err)
 //@   ensures#accepts (lasterr("bech32.Decode",1) == nil && lastret("bech32.Decode",1,0) == "age" && len(lastret("bech32.Decode",1,1)) == 32) ==> err == nil   [C05 C09]
-//@   call bech32.Decode#1 requires arg0 == s                                                                            [C09]
+//@   call bech32.Decode#1 requires arg0 == s                                                                            [C09 C18]
 //@   ensures#canon err == nil ==> r != nil && len(r.theirPublicKey) == 32 && hasprefix(s, "age") && at(s, 3) == 49 && (forall j in 0..len(s) :: 33 <= at(s, j) && at(s, j) <= 126) && (forall j in 4..len(s) :: at(s, j) != 49)   [C09 C17 C18]
-//@   ensures#nil err != nil ==> r == nil                                                                                [C09 C14]
+//@   ensures#nil err != nil ==> r == nil                                                                                [C09 C14 C18]
 //@   fresh r when err == nil
 //@   modifies nothing
 
@@ -267,8 +267,8 @@ package age
 
 //@ func newX25519IdentityFromScalar(secretKey) (i, err)
 //@   call X25519#1 requires bytes(arg1) == basepoint()                                                                  [C01 C05]
-//@   ensures#len err == nil <==> len(secretKey) == 32                                                                   [C09 C14]
-//@   ensures#val err == nil ==> i != nil && len(i.secretKey) == 32 && bytes(i.secretKey) == old(bytes(secretKey))       [C09]
+//@   ensures#len err == nil <==> len(secretKey) == 32                                                                   [C01 C05 C09 C14]
+//@   ensures#val err == nil ==> i != nil && len(i.secretKey) == 32 && bytes(i.secretKey) == old(bytes(secretKey))       [C01 C05 C09]
 //@   ensures#pub (err == nil && x25519ok(old(bytes(secretKey)), basepoint())) ==> bytes(i.ourPublicKey) == x25519(old(bytes(secretKey)), basepoint()) && len(i.ourPublicKey) == 32   [C01 C05]
 //@   ensures#nil err != nil ==> i == nil
 //@   fresh i when err == nil
@@ -276,7 +276,7 @@ package age
 
 //@ func ParseX25519Identity(s) (i, err)
 //@   ensures#accepts (lasterr("bech32.Decode",1) == nil && lastret("bech32.Decode",1,0) == "AGE-SECRET-KEY-" && len(lastret("bech32.Decode",1,1)) == 32) ==> err == nil   [C05 C09]
-//@   call bech32.Decode#1 requires arg0 == s                                                                            [C09]
+//@   call bech32.Decode#1 requires arg0 == s                                                                            [C09 C18]
 //@   call fmt.Errorf#1 requires len(arg1) == 1 && arg1[0] == lasterr("bech32.Decode",1)                     [C18]
 //@   call fmt.Errorf#2 requires len(arg1) == 1 && unboxstr(arg1[0]) == lastret("bech32.Decode",1,0) && lasterr("bech32.Decode",1) == nil   [C18]
 //@   call fmt.Errorf#3 requires len(arg1) == 1 && arg1[0] == lasterr("newX25519IdentityFromScalar",1)       [C18]
@@ -290,7 +290,7 @@ package age
 //@   ensures#frame i.secretKey == old(i.secretKey) && i.ourPublicKey == old(i.ourPublicKey)                             [C20]
 
 //@ func (*X25519Identity).Recipient(i) (r)
-//@   ensures#key r != nil && same(r.theirPublicKey, i.ourPublicKey)                                                     [C01]
+//@   ensures#key r != nil && same(r.theirPublicKey, i.ourPublicKey)                                                     [C01 C05 C09]
 //@   ensures#frame i.secretKey == old(i.secretKey) && i.ourPublicKey == old(i.ourPublicKey)                             [C20]
 //@   fresh r
 //@   modifies nothing
@@ -326,7 +326,7 @@ package age
 //@   requires len(i.secretKey) == 32 && len(i.ourPublicKey) == 32 && (forall j in 0..len(stanzas) :: stanzas[j] != nil)
 //@   ensures#nil err != nil ==> fk == nil                                                                                           [C01 C04]
 //@   ensures#foreign (forall j in 0..len(stanzas) :: stanzas[j].Type != "X25519") ==> err == ErrIncorrectIdentity                   [C01 C04 C05]
-//@   ensures#ok1 (len(stanzas) == 1 && err == nil) ==> stanzas[0].Type == "X25519" && len(fk) == 16 && bytes(fk) == open(x25519Key(x25519(bytes(i.secretKey), unb64raw(stanzas[0].Args[0])), unb64raw(stanzas[0].Args[0]), bytes(i.ourPublicKey)), zeros(12), bytes(stanzas[0].Body))   [C01]
+//@   ensures#ok1 (len(stanzas) == 1 && err == nil) ==> stanzas[0].Type == "X25519" && len(fk) == 16 && bytes(fk) == open(x25519Key(x25519(bytes(i.secretKey), unb64raw(stanzas[0].Args[0])), unb64raw(stanzas[0].Args[0]), bytes(i.ourPublicKey)), zeros(12), bytes(stanzas[0].Body))   [C01 C04 C05]
 //@   ensures#opens1 (len(stanzas) == 1 && stanzas[0].Type == "X25519" && len(stanzas[0].Args) == 1 && b64rawok(stanzas[0].Args[0]) && len(unb64raw(stanzas[0].Args[0])) == 32 && x25519ok(bytes(i.secretKey), unb64raw(stanzas[0].Args[0])) && len(stanzas[0].Body) == 32 && openok(x25519Key(x25519(bytes(i.secretKey), unb64raw(stanzas[0].Args[0])), unb64raw(stanzas[0].Args[0]), bytes(i.ourPublicKey)), zeros(12), bytes(stanzas[0].Body))) ==> err == nil   [C01 C05]
 //@   ensures#frame i.secretKey == old(i.secretKey) && i.ourPublicKey == old(i.ourPublicKey)                                         [C20]
 //@   modifies nothing
@@ -338,5 +338,5 @@ package age
 
 //@ func NewScryptIdentity(password) (i, err)
 //@   ensures#iff err == nil <==> len(password) > 0                                                                                  [C04 C10]
-//@   ensures#pw err == nil ==> i != nil && bytes(i.password) == password && i.maxWorkFactor == 22                                   [C01 C04 C10]
+//@   ensures#pw err == nil ==> i != nil && bytes(i.password) == password && i.maxWorkFactor == 22                                   [C01 C04 C05 C10]
 //@   ensures#nil err != nil ==> i == nil                                                                                            [C14]
